@@ -790,7 +790,7 @@ def tier_c_folds(run, thorough):
                     rk(dict(b, k=None), 'of_k_rdm')        # default group size (k=5 in the signature)
                     if not desc:
                         rk(dict(b, k=None), 'of_k_pattern')
-    if False:  # pending triage: of_k_pattern,default-pattern-descriptor-is-None
+    if True:   # repaired in /repo 99da527e (was pending triage): of_k_pattern,default-pattern-descriptor-is-None
         # sets_of_k_pattern(rdms, k=2): the default pattern_descriptor=None is passed to add_pattern_index, which no longer
         # replaces None by 'index' (its docstring says it does) -> KeyError: None for every input
         reg_as('default-pattern-descriptor-is-None')(dict(n_rdm=4, n_cond=5, rg=[0, 1, 2, 3], pg=[0, 1, 2, 3, 4], desc='default', k=2,
